@@ -47,6 +47,7 @@ Definition remove_members (ms : list bytes) (z : szset) : szset * Z := del_loop 
 Definition zstep (key : bytes) (c : zcmd) (z : szset) : szset * reply :=
   match c with
   | ZCinvalid => (z, RErr)
+  | ZCfixkey => (z, RNil)                  (* ZanRedisDB's repair command: nothing to repair in the reference model *)
   | ZCadd ps =>
       match ps with
       | [] => (z, RInt 0)
